@@ -455,6 +455,144 @@ def run_solve(job: dict, executor: str = "pool") -> dict:
     return out
 
 
+# ---- history independence ------------------------------------------------------------------------------------------
+class InjectedFailure(RuntimeError):
+    """The failure the harness injects to abort a solve (a backend that breaks down, an operator that raises)."""
+
+
+def make_criterion(spec):
+    """spec = [kind, threshold, allowed_consecutive_violations]: the stateful termination criteria of the package."""
+    from queasars.minimum_eigensolvers.base import termination_criteria as tc
+
+    kind, thr, allowed = spec
+    if kind == "best_abs":
+        return tc.BestIndividualChangeTolerance(minimum_change=thr, allowed_consecutive_violations=allowed)
+    if kind == "best_rel":
+        return tc.BestIndividualRelativeChangeTolerance(minimum_relative_change=thr, allowed_consecutive_violations=allowed)
+    if kind == "pop_abs":
+        return tc.PopulationChangeTolerance(minimum_change=thr, allowed_consecutive_violations=allowed)
+    if kind == "pop_rel":
+        return tc.PopulationChangeRelativeTolerance(minimum_relative_change=thr, allowed_consecutive_violations=allowed)
+    raise ValueError(kind)
+
+
+def _counting_primitives():
+    from qiskit.primitives import BaseEstimatorV2, BaseSamplerV2
+
+    class CountingSampler(BaseSamplerV2):
+        """Forwards to `inner`; counts run() calls; raises InjectedFailure from call number fail_from on."""
+
+        def __init__(self, inner, fail_from=None):
+            self.inner, self.fail_from, self.n = inner, fail_from, 0
+
+        def run(self, pubs, *, shots=None):
+            self.n += 1
+            if self.fail_from is not None and self.n >= self.fail_from:
+                raise InjectedFailure(f"the sampler broke down at call {self.n}")
+            return self.inner.run(pubs, shots=shots)
+
+    class CountingEstimator(BaseEstimatorV2):
+        def __init__(self, inner, fail_from=None):
+            self.inner, self.fail_from, self.n = inner, fail_from, 0
+
+        def run(self, pubs, *, precision=None):
+            self.n += 1
+            if self.fail_from is not None and self.n >= self.fail_from:
+                raise InjectedFailure(f"the estimator broke down at call {self.n}")
+            return self.inner.run(pubs, precision=precision)
+
+    return CountingSampler, CountingEstimator
+
+
+SHARE_MODES = ("all", "criterion", "optimizer", "primitives", "executor")
+
+
+def run_history(job: dict) -> dict:
+    """A freshly constructed, identically configured and seeded solver must not depend on what happened to an EARLIER
+    solver that used the same configuration objects.  Three solves in this process:
+      reference  everything fresh (a fresh criterion of the same kind)                                   -> R0
+      aborted    the objects named by job["share"] (termination criterion / optimiser / raw primitives and pass
+                 manager / executor - everything a user may legitimately reuse) are created and used by a solve
+                 that is aborted mid-evolution by an injected failure (an operator application that raises, or the
+                 primitive the evaluator uses breaking down inside a task)
+      retry      a fresh solver, same setup and seed, with those SAME objects (the rest fresh)                  -> R1
+    Returns {"reference": run, "retry": run, "aborted": {...}}; R1 must equal R0 (fingerprint and decision log)."""
+    from vlib import composekit, solverkit
+
+    setup = solve_setup(job["setup"])
+    share = job["share"]
+    shared = lambda what: share == "all" or share == what  # noqa: E731
+    CountingSampler, CountingEstimator = _counting_primitives()
+    counts = {}
+
+    def one(label, objs, ambient, fail=None):
+        """objs: the shared objects (or {} for all fresh); missing ones are created fresh and shut down afterwards."""
+        if ambient is None:
+            advance_ambient()
+        else:
+            set_ambient(ambient)
+        log = ReproLog()
+        out: dict = {}
+        fresh_executor = None
+        with logged(log):
+            try:
+                executor = objs.get("executor")
+                if executor is None:
+                    executor = fresh_executor = ThreadPoolExecutor(max_workers=1)
+                optimizer = objs.get("optimizer") or make_optimizer(setup.get("optimizer", "coordinate"))
+                criterion = objs.get("criterion") or make_criterion(job["criterion"])
+                raw_sampler = objs.get("sampler") or solverkit.ExactSampler()
+                raw_estimator = objs.get("estimator") or solverkit.exact_estimator()
+                uses_estimator = setup["evaluator"] == "estimator"
+                fail_from = None
+                if fail is not None and fail["how"] == "primitive":
+                    fail_from = max(2, int(counts["reference"] * fail["frac"]))
+                sampler = CountingSampler(raw_sampler, None if uses_estimator else fail_from)
+                estimator = CountingEstimator(raw_estimator, fail_from if uses_estimator else None)
+                solver, call = composekit.build(setup, executor, optimizer, criterion=criterion, sampler=sampler, estimator=estimator,
+                                                pass_manager=objs.get("pass_manager"))
+                if fail is not None and fail["how"] == "operator":
+                    n_applied = [0]
+                    for op in solver.configuration.evolutionary_operators:
+                        def apply(population, operator_context, _real=op.apply_operator):
+                            n_applied[0] += 1
+                            if n_applied[0] > fail["at"]:
+                                raise InjectedFailure(f"operator application {n_applied[0]} raises")
+                            return _real(population=population, operator_context=operator_context)
+
+                        op.apply_operator = apply
+                res = call()
+                out["fp"] = {"result": fingerprint_result(res)}
+                counts[label] = estimator.n if uses_estimator else sampler.n
+            except Exception as e:  # noqa: BLE001 - an exception is an outcome
+                out["fp"] = {"result": _exc(e)}
+            finally:
+                if fresh_executor is not None:
+                    fresh_executor.shutdown(wait=True)
+        out["log"] = log.canonical()
+        return out
+
+    reference = one("reference", {}, ambient=job.get("ambient", 7))
+    objs = {}
+    if shared("criterion"):
+        objs["criterion"] = make_criterion(job["criterion"])
+    if shared("optimizer"):
+        objs["optimizer"] = make_optimizer(setup.get("optimizer", "coordinate"))
+    if shared("primitives"):
+        objs["sampler"], objs["estimator"], objs["pass_manager"] = solverkit.ExactSampler(), solverkit.exact_estimator(), solverkit._pass_manager()
+    if shared("executor"):
+        objs["executor"] = ThreadPoolExecutor(max_workers=1)
+    try:
+        aborted = one("aborted", objs, ambient=job.get("ambient", 7) + 1, fail=job["fail"])
+        retry = one("retry", objs, ambient=None)
+    finally:
+        if "executor" in objs:
+            objs["executor"].shutdown(wait=True)
+    return {"reference": reference, "retry": retry,
+            "aborted": {"outcome": aborted["fp"]["result"] if "raise" in aborted["fp"]["result"] else {"completed": True},
+                        "decisions": len(aborted["log"]["main"]) + len(aborted["log"]["worker"])}}
+
+
 def _plain_dist(x):
     """A value, or a distribution given as [[value, probability], ...] (JSON cannot carry float/int dict keys)."""
     if isinstance(x, list):
